@@ -45,11 +45,11 @@ OPS = {
     22: ('-"a";', "TypeError"),
     23: ('"${nil.foo}";', "AttributeError"),
     # failing conversions of long strings with a multi-byte character where an error message might cut the text
-    24: ('("%s\u{20ac}uro").to_num();' % ("a" * 47), "ValueError"),
-    25: ('("%s\u{20ac}").to_num();' % ("9" * 31), "ValueError"),
-    26: ('("%s\u{e9}t\u{e9}").to_num();' % ("b" * 63), "ValueError"),
-    27: ('("%s\u{20ac}").to_num();' % ("c" * 127), "ValueError"),
-    28: ('("%s\u{20ac}x").to_num();' % ("d" * 255), "ValueError"),
+    24: ('("%s€uro").to_num();' % ("a" * 47), "ValueError"),
+    25: ('("%s€").to_num();' % ("9" * 31), "ValueError"),
+    26: ('("%sété").to_num();' % ("b" * 63), "ValueError"),
+    27: ('("%s€").to_num();' % ("c" * 127), "ValueError"),
+    28: ('("%s€x").to_num();' % ("d" * 255), "ValueError"),
 }
 ALL_KINDS = HOST_KINDS + ["op:%d" % k for k in sorted(OPS)]
 
